@@ -36,6 +36,10 @@ impl<'a> WireFormat<'a> for NSEC<'a> {
         let mut type_bit_maps = Vec::new();
 
         while data.len() > *position {
+            if *position + 2 > data.len() {
+                return Err(crate::SimpleDnsError::InsufficientData);
+            }
+
             let window_block = data[*position];
             *position += 1;
             if type_bit_maps.last().is_some_and(|f: &TypeBitMap<'_>| f.window_block - 1 != window_block) {
@@ -44,6 +48,10 @@ impl<'a> WireFormat<'a> for NSEC<'a> {
 
             let bitmap_length = data[*position];
             *position += 1;
+
+            if *position + bitmap_length as usize > data.len() {
+                return Err(crate::SimpleDnsError::InsufficientData);
+            }
 
             let bitmap = &data[*position..*position + bitmap_length as usize];
             *position += bitmap_length as usize;
